@@ -35,13 +35,39 @@ impl<'a> Remote<'a> {
     pub fn schedule(&self) {
         instrument!(compio_log::Level::TRACE, "Remote::schedule", id = ?self.header().id);
 
-        let state = self.header().state.start_scheduling();
+        let mut state = self.header().state.start_scheduling();
 
         trace!(?state);
 
-        if state.is_scheduled() || state.is_completed() || state.is_cancelled() {
-            self.header().state.finish_scheduling();
-            return;
+        // `SCHEDULING` tells the executor that somebody is using `Shared`, and
+        // it is a single bit for all threads scheduling this task. It belongs
+        // to the thread whose `start_scheduling` turned it on: nobody else may
+        // turn it off, or enter the critical section while it is on, otherwise
+        // the executor stops waiting for a thread that is still in there.
+        let owns_scheduled = !state.is_scheduled();
+        loop {
+            if (state.is_scheduled() && !owns_scheduled)
+                || state.is_completed()
+                || state.is_cancelled()
+            {
+                if !state.is_scheduling() {
+                    self.header().state.finish_scheduling();
+                }
+                return;
+            }
+
+            if !state.is_scheduling() {
+                break;
+            }
+
+            // Another thread is in its critical section, but the task has run
+            // since it set `SCHEDULED`: it is us who turned `SCHEDULED` on, so
+            // we have to push. Wait for the other thread to leave, then take
+            // the bit ourselves.
+            while self.header().state.load::<Strong>().is_scheduling() {
+                crate::yield_now();
+            }
+            state = self.header().state.start_scheduling();
         }
 
         // Load shared pointer - it should always be valid since we keep it until
